@@ -216,7 +216,7 @@ class FormattedValue(ExpressionPrinter):
         if self.printer.previous_token in [TokenTypes.Identifier, TokenTypes.Keyword, TokenTypes.SoftKeyword]:
             # The b prefix must not run into a preceding name or keyword
             self.printer.delimiter(' ')
-        self.printer.append(str(Bytes(node.s, self.allowed_quotes)), TokenTypes.NonNumberLiteral)
+        self.printer.append(str(Bytes(node.s, self.allowed_quotes, self.pep701)), TokenTypes.NonNumberLiteral)
 
     def visit_JoinedStr(self, node):
         assert isinstance(node, ast.JoinedStr)
@@ -294,6 +294,8 @@ class Str(object):
                 literal += '\\r'
             elif c == '\\':
                 literal += '\\\\'
+            elif c == '\0':
+                literal += '\\x00'
             else:
                 literal += c
 
@@ -305,7 +307,7 @@ class Str(object):
         if self._s == '':
             return str(min(self.allowed_quotes, key=len)) * 2
 
-        if '\0' in self._s or ('\\' in self._s and not self.pep701):
+        if not self.pep701 and ('\0' in self._s or '\\' in self._s):
             raise ValueError('Impossible to represent a character in f-string expression part')
 
         if not self.pep701 and ('\n' in self._s or '\r' in self._s):
@@ -374,16 +376,17 @@ class Bytes(object):
 
     """
 
-    def __init__(self, b, allowed_quotes):
+    def __init__(self, b, allowed_quotes, pep701=False):
         self._b = b
         self.allowed_quotes = allowed_quotes
         self.current_quote = None
+        self.pep701 = pep701
 
     def _can_quote(self, c):
         if self.current_quote is None:
             return False
 
-        if (c == ord(b'\n') or c == ord(b'\r')) and len(self.current_quote) == 1:
+        if (c == ord(b'\n') or c == ord(b'\r')) and len(self.current_quote) == 1 and not self.pep701:
             return False
 
         if chr(c) == self.current_quote[0]:
@@ -393,7 +396,7 @@ class Bytes(object):
 
     def _get_quote(self, c):
         for quote in self.allowed_quotes:
-            if c == ord(b'\n') or c == ord(b'\r'):
+            if not self.pep701 and (c == ord(b'\n') or c == ord(b'\r')):
                 if len(quote) == 3:
                     return quote
             elif chr(c) != quote:
@@ -414,7 +417,19 @@ class Bytes(object):
 
             if literal == '':
                 literal = 'b' + self.current_quote
-            literal += chr(b)
+
+            if not self.pep701:
+                literal += chr(b)
+            elif b == ord(b'\\'):
+                literal += '\\\\'
+            elif b == ord(b'\n'):
+                literal += '\\n'
+            elif b == ord(b'\r'):
+                literal += '\\r'
+            elif b == 0 or b >= 128:
+                literal += '\\x%02x' % b
+            else:
+                literal += chr(b)
 
         if literal:
             literal += self.current_quote
@@ -424,10 +439,10 @@ class Bytes(object):
         if self._b == b'':
             return 'b' + str(min(self.allowed_quotes, key=len)) * 2
 
-        if b'\0' in self._b or b'\\' in self._b:
+        if not self.pep701 and (b'\0' in self._b or b'\\' in self._b):
             raise ValueError('Impossible to represent a %r character in f-string expression part')
 
-        if b'\n' in self._b or b'\r' in self._b:
+        if not self.pep701 and (b'\n' in self._b or b'\r' in self._b):
             if '"""' not in self.allowed_quotes and "'''" not in self.allowed_quotes:
                 raise ValueError(
                     'Impossible to represent newline character in f-string expression part without a long quote'
